@@ -73,6 +73,8 @@ pub struct CallRecord {
 
 pub struct Driver {
     pub sim: SimDirectory,
+    /// when set, the index lives in this real directory instead of `sim` (conformance pass)
+    pub real_dir: Option<tantivy::directory::MmapDirectory>,
     pub index: Option<Index>,
     pub writer: Option<IndexWriter>,
     pub reader: Option<IndexReader>,
@@ -129,13 +131,16 @@ pub fn read_ids_of(index: &Index) -> Result<BTreeSet<u64>, String> {
 
 impl Driver {
     pub fn new(sim: SimDirectory, cfg: &WlConfig) -> Driver {
-        Driver { sim, index: None, writer: None, reader: None, cfg: cfg.clone(), model: Model { history: vec![BTreeSet::new()], ..Default::default() }, calls: vec![], attempted: None, first_error_at: None }
+        Driver { sim, real_dir: None, index: None, writer: None, reader: None, cfg: cfg.clone(), model: Model { history: vec![BTreeSet::new()], ..Default::default() }, calls: vec![], attempted: None, first_error_at: None }
     }
 
     /// index creation (W1): returns Err text on failure
     pub fn create_index(&mut self) -> Result<(), String> {
         self.sim.marker("call create_index");
-        let r = Index::create(self.sim.clone(), schema(), settings(&self.cfg));
+        let r = match &self.real_dir {
+            Some(d) => Index::create(d.clone(), schema(), settings(&self.cfg)),
+            None => Index::create(self.sim.clone(), schema(), settings(&self.cfg)),
+        };
         self.sim.marker(if r.is_ok() { "ret create_index ok" } else { "ret create_index err" });
         match r {
             Ok(i) => {
